@@ -6,7 +6,7 @@ PROPS = {
     "C09": {
         "engine": "interp",
         "batches": {
-            "quick": [{"config": "gcc-O1-asan-ubsan", "runs": 3000}],
+            "quick": [{"config": "gcc-O1-asan-ubsan", "runs": 6000}],
             "thorough": [{"config": "clang-O2", "runs": 50000}, {"config": "gcc-O1-asan-ubsan", "runs": 12000}],
         },
         "rule": "One run = one seeded plan: a table (N in {3..2000}, spacing ratios up to 1e9, optional unit factors) and an "
@@ -28,7 +28,7 @@ PROPS = {
     "C08": {
         "engine": "interp",
         "batches": {
-            "quick": [{"config": "gcc-O1-asan-ubsan", "runs": 2500}],
+            "quick": [{"config": "gcc-O1-asan-ubsan", "runs": 6000}],
             "thorough": [{"config": "clang-O2", "runs": 40000}, {"config": "gcc-O1-asan-ubsan", "runs": 10000}],
         },
         "rule": "Same plans as C09 with the op mix shifted to Integrate / Local_* / Global_* / Set_Prefactor / Multiply. After each such "
